@@ -310,7 +310,13 @@ type GraphOpts struct {
 	// many families and up to 12 children per family
 	Big          int
 	BigLo, BigHi int
+	// Huge > 0: about one graph in Huge has HugeLo..HugeHi people (default 260..400: past a block of 256)
+	Huge           int
+	HugeLo, HugeHi int
 }
+
+// IsHuge: more than 256 people.
+func (g *GraphBP) IsHuge() bool { return len(g.People) > 256 }
 
 // IsBig: the graph came from the Big branch of the generator (class label).
 func (g *GraphBP) IsBig() bool { return len(g.People) >= 20 }
@@ -341,6 +347,14 @@ func Graph(o GraphOpts) *rapid.Generator[*GraphBP] {
 			}
 			np = rapid.IntRange(lo, hi).Draw(t, "bigpeople")
 			minFam, maxFam, maxKids = np/6, np/3, 12
+		}
+		if o.Huge > 0 && rapid.IntRange(0, o.Huge-1).Draw(t, "huge") == o.Huge/2 {
+			lo, hi := o.HugeLo, o.HugeHi
+			if hi == 0 {
+				lo, hi = 260, 400
+			}
+			np = rapid.IntRange(lo, hi).Draw(t, "hugepeople")
+			minFam, maxFam, maxKids = np/8, np/4, 8
 		}
 		dateGen := SimpleDate(o.YearLo, o.YearHi)
 		if o.WildDates {
